@@ -671,10 +671,12 @@ pub fn c11_prog_body(case: &ProgCase, obs: &mut Obs) -> Result<(), String> {
 
 /// programs mixing derived definitions with built-in roots
 pub fn mixed_case(n_entropy: usize) -> BoxedStrategy<ProgCase> {
-    (gen::program(1..4, gen::DefOpts { encode: false, bitvec: true, rich_attrs: false, encoded_as: false }), gen::builtin_program(false), gen::entropies(n_entropy))
+    let usual = (gen::program(1..4, gen::DefOpts { encode: false, bitvec: true, rich_attrs: false, encoded_as: false }), gen::builtin_program(false), gen::entropies(n_entropy))
         .prop_map(|(mut p, b, entropies)| {
             p.roots.extend(b.roots);
             ProgCase { prog: p, entropies }
-        })
-        .boxed()
+        });
+    // now and then a deep, branching graph (recursion depth, numbering order)
+    let deep = (gen::deep_program(), gen::entropies(n_entropy)).prop_map(|(p, entropies)| ProgCase { prog: p, entropies });
+    prop_oneof![9 => usual, 1 => deep].boxed()
 }
